@@ -110,7 +110,11 @@ func init() {
 		need(a, 3)
 		x := e.b(a[0])
 		v, n := u32(a[1]), int(u64(a[2]))
-		if n > 100000 {
+		step := uint64(2)
+		if len(a) > 3 {
+			step = u64(a[3])
+		}
+		if n > 100000 || step == 0 || step > 1<<20 {
 			panic(skipErr{"too many"})
 		}
 		var m uint64
@@ -130,7 +134,7 @@ func init() {
 		}
 		vals := make([]uint32, 0, n+1)
 		for i := 0; i <= n; i++ {
-			if w := m + 2*uint64(i); w < 1<<32 {
+			if w := m + step*uint64(i); w < 1<<32 {
 				vals = append(vals, uint32(w))
 			}
 		}
